@@ -272,7 +272,7 @@ macro_rules! paste_underflow {
         pub mod $name {
             use super::*;
             #[kani::proof]
-            #[kani::unwind(6)]
+            #[kani::unwind(34)]
             fn underflow() {
                 let (a, b) = (any_w(), any_w());
                 let (mut it, depth, gas) = setup($arity, $arity - 1, a, b, ZERO, ZERO);
@@ -287,7 +287,7 @@ macro_rules! paste_underflow {
 macro_rules! binop {
     ($name:ident, $f:expr, $cost:expr, |$a:ident, $b:ident| $model:expr) => {
         #[kani::proof]
-        #[kani::unwind(6)]
+        #[kani::unwind(34)]
         fn $name() {
             let ($a, $b, below) = (any_w(), any_w(), any_w());
             let (mut it, depth, gas) = setup(2, 3, $a, $b, ZERO, below);
@@ -302,7 +302,7 @@ macro_rules! binop {
 macro_rules! unop {
     ($name:ident, $f:expr, $cost:expr, |$a:ident| $model:expr) => {
         #[kani::proof]
-        #[kani::unwind(6)]
+        #[kani::unwind(34)]
         fn $name() {
             let ($a, below) = (any_w(), any_w());
             let (mut it, depth, gas) = setup(1, 2, $a, ZERO, ZERO, below);
@@ -336,15 +336,15 @@ binop!(c03_signextend, arithmetic::signextend::<NoHost>, 5, |e, x| r_signextend(
 
 /// EIP-145: SHL/SHR/SAR do not exist before Constantinople: NotActivated, nothing consumed.
 #[kani::proof]
-#[kani::unwind(6)]
+#[kani::unwind(34)]
 fn c03_shifts_not_activated_before_constantinople() {
     let which: u8 = kani::any();
     kani::assume(which < 3);
     let gas: u64 = kani::any();
     let (a, b) = (any_w(), any_w());
     let mut it = new_interp(gas);
-    assert!(it.stack.push(u(b)).is_ok());
-    assert!(it.stack.push(u(a)).is_ok());
+    it.stack.data_mut().push(u(b));
+    it.stack.data_mut().push(u(a));
     let mut host = NoHost;
     match which {
         0 => bitwise::shl::<NoHost, ByzantiumSpec>(&mut it, &mut host),
@@ -357,7 +357,7 @@ fn c03_shifts_not_activated_before_constantinople() {
 }
 
 #[kani::proof]
-#[kani::unwind(6)]
+#[kani::unwind(34)]
 fn c03_twin_must_fail() {
     let (a, b, below) = (any_w(), any_w(), any_w());
     let (mut it, depth, gas) = setup(2, 3, a, b, ZERO, below);
